@@ -49,6 +49,8 @@ class Caught(object):
 
 
 class VErr(Exception):
+    __bool__ = lambda self: False       # unusual but legal: a falsy exception object
+
     def __init__(self, vid):
         Exception.__init__(self, "verr-%d" % vid)
         self.vid = vid
